@@ -7,6 +7,7 @@ import (
 	"encoding/json"
 	"fmt"
 	"os"
+	"sync"
 
 	"github.com/octohelm/gengo/pkg/inflector"
 
@@ -31,6 +32,77 @@ func call(c inflproto.Call) (res inflproto.Result) {
 	return
 }
 
+// volume inflects n distinct inputs of one length (so that a cache keyed by a short digest plus the
+// length has its best chance to collide; n past any plausible cache bound), each ending in an irregular
+// word of the rule type asked, and checks each result against the prefix clause; g goroutines share the work.
+func volume(req *inflproto.Req) *inflproto.Resp {
+	resp := &inflproto.Resp{ID: req.ID}
+	g := req.Goroutines
+	if g < 1 {
+		g = 1
+	}
+	type rule struct {
+		f     func(string) string
+		name  string
+		words []string
+		alone map[string]string
+	}
+	rules := []*rule{{f: inflector.Pluralize, name: "Pluralize", words: req.PWords}, {f: inflector.Singularize, name: "Singularize", words: req.SWords}}
+	for _, r := range rules {
+		r.alone = map[string]string{}
+		for _, w := range r.words {
+			r.alone[w] = r.f(w)
+		}
+	}
+	var mu sync.Mutex
+	report := func(format string, args ...any) {
+		mu.Lock()
+		if len(resp.Mismatches) < 5 {
+			resp.Mismatches = append(resp.Mismatches, fmt.Sprintf(format, args...))
+		}
+		mu.Unlock()
+	}
+	var wg sync.WaitGroup
+	for k := 0; k < g; k++ {
+		wg.Add(1)
+		go func(k int) {
+			defer wg.Done()
+			defer func() {
+				if r := recover(); r != nil {
+					report("panic: %v", r)
+				}
+			}()
+			checked := 0
+			for i := k; i < req.N; i += g {
+				for _, r := range rules {
+					w := r.words[i%len(r.words)]
+					in := inflproto.VolumeInput(req.Tag, i, w)
+					want := in[:len(in)-len(w)] + r.alone[w]
+					if got := r.f(in); got != want {
+						report("%s(%q) = %q, want %q", r.name, in, got, want)
+					}
+					checked++
+					if i%97 == 0 && i > 0 {
+						// an earlier input again: the same answer as the first time
+						j := i / 2
+						w2 := r.words[j%len(r.words)]
+						in2 := inflproto.VolumeInput(req.Tag, j, w2)
+						if got := r.f(in2); got != in2[:len(in2)-len(w2)]+r.alone[w2] {
+							report("asked again: %s(%q) = %q", r.name, in2, got)
+						}
+						checked++
+					}
+				}
+			}
+			mu.Lock()
+			resp.Checked += checked
+			mu.Unlock()
+		}(k)
+	}
+	wg.Wait()
+	return resp
+}
+
 func splitmix(x *uint64) uint64 {
 	*x += 0x9e3779b97f4a7c15
 	z := *x
@@ -42,6 +114,8 @@ func splitmix(x *uint64) uint64 {
 func serve(req *inflproto.Req) *inflproto.Resp {
 	resp := &inflproto.Resp{ID: req.ID}
 	switch req.Mode {
+	case "volume":
+		return volume(req)
 	case "seq":
 		for _, c := range req.Calls {
 			resp.Seq = append(resp.Seq, call(c))
